@@ -794,8 +794,14 @@ def value(sx, sig, I, scope=None):
                 total *= len(d)
             if total > I.enum_limit:
                 raise Skip("quantifier domain too large")
+            # nested quantifiers multiply: bound the product along the nesting as well, otherwise
+            # three nested binders over 256-element domains mean 16M evaluations of the body
+            qprod = scope.get("\0qprod", 1) * total
+            if qprod > I.enum_limit:
+                raise Skip("nested quantifier domains too large")
             for xs in itertools.product(*doms):
                 new = dict(scope)
+                new["\0qprod"] = qprod
                 for (n, _), x in zip(vs, xs):
                     new[n] = x
                 b = value(sx[2], sig, I, new)
